@@ -22,6 +22,16 @@ pub fn rect(w: f32, h: f32) -> Polygon {
     vec![point![0.0, 0.0], point![w, 0.0], point![w, h], point![0.0, h]]
 }
 
+/// an outline of area w x h: 0 the rectangle, 1 a parallelogram (sheared by 0.3 h), 2 the rectangle away from the
+/// origin of its plane and written closed (the first corner repeated at the end)
+pub fn shaped(w: f32, h: f32, variant: usize) -> Polygon {
+    match variant % 3 {
+        0 => rect(w, h),
+        1 => vec![point![0.0, 0.0], point![w, 0.0], point![w + 0.3 * h, h], point![0.3 * h, h]],
+        _ => vec![point![2.0, 1.0], point![2.0 + w, 1.0], point![2.0 + w, 1.0 + h], point![2.0, 1.0 + h], point![2.0, 1.0]],
+    }
+}
+
 pub fn geom(tilt: f32, azimuth: f32, pos: Option<[f32; 3]>, polygon: Polygon) -> WallGeom {
     WallGeom {
         tilt,
